@@ -62,10 +62,9 @@ def ds(rng):
 
 
 def instant(rng):
-    # 2^32 - 1 is a legitimate instant (2106-02-07 06:28:15 UTC) whose wire form is `ffffffff`
-    t = rng.choice([0, 1, 2 ** 31 - 1, 2 ** 31, 2 ** 32 - 2, 1600000000, rng.randrange(2 ** 32 - 1),
-                    rng.randrange(2 ** 32 - 1), rng.randrange(2 ** 32 - 1), rng.randrange(2 ** 32 - 1),
-                    rng.randrange(2 ** 32 - 1), 2 ** 32 - 1 if rng.random() < 0.3 else 12345])
+    # the whole 32-bit range; 2^32 - 1 is the instant 2106-02-07 06:28:15 UTC
+    t = rng.choice([0, 1, 2 ** 31 - 1, 2 ** 31, 2 ** 32 - 2, 2 ** 32 - 1, 1600000000, rng.randrange(2 ** 32),
+                    rng.randrange(2 ** 32), rng.randrange(2 ** 32), rng.randrange(2 ** 32), rng.randrange(2 ** 32)])
     return datetime.datetime(1970, 1, 1) + datetime.timedelta(seconds=t)
 
 
@@ -104,7 +103,7 @@ def txt(rng):
         parts = [txt_text(rng, rng.choice([0, 1, 17, 255, 255])) for _ in range(rng.choice([2, 2, 3, 5]))]
         return DnsRecordTxt.parse_exact_size(b''.join(bytes([len(p)]) + p.encode('ascii') for p in parts))
     if r < 0.12:
-        return DnsRecordTxt(txt_text(rng, rng.choice([256, 257, 300, 600])))   # a legitimate TXT value
+        return DnsRecordTxt(txt_text(rng, rng.choice([256, 257, 300, 510, 511, 600])))   # several character-strings
     return DnsRecordTxt(txt_text(rng, rng.choice([0, 1, 2, 30, 100, 254, 255, rng.randrange(256)])))
 
 
@@ -165,7 +164,8 @@ def dnskey_rdata(rng, kind=None):
         return head + be(alg, 1) + rsa_key_bytes(e, n), kind
     if kind in ('ec256', 'ec384', 'gost'):
         alg, size = {'ec256': (13, 32), 'ec384': (14, 48), 'gost': (12, 32)}[kind]
-        return head + be(alg, 1) + be(safe_int(rng, size), size) + be(safe_int(rng, size), size), kind
+        xs, ys = rng.choice([(size, size), (size, size), (size - 1, size), (size - 1, size - 2), (size, 1)])
+        return head + be(alg, 1) + be(safe_int(rng, xs), size) + be(safe_int(rng, ys), size), kind
     if kind == 'ed25519':
         return head + be(15, 1) + rbytes(rng, 32), kind
     if kind == 'ed448':
